@@ -252,17 +252,37 @@ theorem C05_select_complete_for_retry : SelComplete :=
   fun k p robin h rs hw hav => C05_complete k p robin h rs hw hav
 
 /-- With retries enabled (try_duration > 0, fail_timeout > 0), a healthy backend (up, below its
-cap, answering), the other backends only failing or answering, and the time budget of
-`RetrySpec.budget` (max_fails · #other backends · try_interval < try_duration ≤ fail_timeout), the
-request is answered — for every pool, every policy, every round-robin counter, key, random stream,
-every failure script of the other backends and every max_fails. -/
+cap, answering, from the arrival of the request on), the other backends only failing or answering, and
+the time budget of `RetrySpec.budget` (max_fails · #other backends · try_interval < try_duration ≤
+fail_timeout), the request is answered — for every pool, every policy, every round-robin counter, key,
+random stream, every failure script of the other backends, every max_fails, every state of the other
+backends when the request arrives (unhealthy, at the cap, failures already recorded) and every change
+of their state while the request is served (`Cfg.events`). -/
 theorem C05_retry_reaches_healthy (c : Cfg) (robin : Nat) (hm : mustSucceed c = true) :
     (serve c robin).1 = .success :=
   serve_success C05_select_sound_for_retry C05_select_complete_for_retry c robin hm
 
+/-- Backends that come back.  Whatever state the backends are in when the request arrives (all of
+them may be out of rotation but one, which then fails) and however their state changes while it is
+served: with retries enabled, backends that only fail or answer and the time budget of
+`RetrySpec.budgetLate` (max_fails · #backends that can fail · try_interval < try_duration,
+try_duration + try_interval ≤ fail_timeout), the request is NOT left unanswered while a backend that
+always answers is in rotation — if such a backend is there once the attempts of the run have been
+made (`goodAfter`: in the state it arrived in, or the state the changes during those attempts
+gave it), the run ended with its answer.  The loop gives up only when nobody is left. -/
+theorem C05_retry_answered_when_backend_returns (c : Cfg) (robin : Nat)
+    (hm : mustSucceedAfter c (serve c robin).2.length = true) : (serve c robin).1 = .success :=
+  serve_late C05_select_sound_for_retry C05_select_complete_for_retry c robin hm
+
 /-- Every attempt reads the complete original body — when the body is buffered (more than one
-backend) or there is only one attempt (try_duration 0).  PARTIAL: a single backend with retries
-enabled is excluded; see the witness below (known finding C05-retry-single-backend-body). -/
+backend CONFIGURED: `c.hosts.length`, the size of the pool) or there is only one attempt
+(try_duration 0).  `c` ranges over every state of the backends when the request arrives
+(`HostCfg.unhealthy`, `.conns`, `.fails`: any number of them out of rotation, also all but one or
+all of them) and every change of state while it is served (`Cfg.events`: backends coming back or
+going away between attempts), so the body is complete also for the backend that was out of
+rotation when the request arrived and answers it after coming back.
+PARTIAL: a single backend with retries enabled is excluded; see the witness below (known finding
+C05-retry-single-backend-body). -/
 theorem C05_retry_body_complete_partial (c : Cfg) (robin : Nat)
     (h : c.hosts.length > 1 ∨ c.tryDuration = 0) : bodiesComplete c (serve c robin).2 = true := by
   have key : ∀ a ∈ (serve c robin).2, BodyOK c a = true := by
@@ -283,14 +303,16 @@ theorem C05_retry_body_complete_partial (c : Cfg) (robin : Nat)
 /-- The excluded case does fail: one backend, max_fails 2, the first attempt fails after reading
 the body — the second attempt finds the body consumed. -/
 def singleBackendWitness : Cfg :=
-  { kind := .first, hash := 0, rands := (fun _ => []), tryDuration := 10, interval := 1, failTimeout := 100, maxFails := 2, maxConns := 0, hosts := [⟨false, 0, [.fail true, .ok]⟩], hasBody := true }
+  { kind := .first, hash := 0, rands := (fun _ => []), tryDuration := 10, interval := 1, failTimeout := 100, maxFails := 2, maxConns := 0, hosts := [⟨false, 0, [.fail true, .ok], 0⟩], hasBody := true, events := [] }
 
 theorem C05_retry_body_single_backend_fails_witness :
     bodiesComplete singleBackendWitness (serve singleBackendWitness 0).2 = false := by
   decide
 
-/-- No backend is ever available (all marked unhealthy or at their cap): the answer is 502, after
-try_duration has passed, without a single attempt. -/
+/-- No backend is in rotation when the request arrives (each one marked unhealthy, at its cap or
+with max_fails failures recorded that outlast the request): no attempt is made, so nothing an
+attempt could trigger changes that, and the answer is 502, after try_duration has passed, without
+a single attempt. -/
 theorem C05_gives_up_502 (c : Cfg) (robin : Nat) (hn : neverAvailable c = true) (hI : c.interval ≥ 1) :
     serve c robin = (.badGateway, []) :=
   serve_gives_up C05_select_sound_for_retry c robin hn hI
@@ -305,22 +327,54 @@ theorem C05_retry_model_verdict_ok_partial (c : Cfg) (robin : Nat)
     cases hm : mustSucceed c with
     | false => rfl
     | true => simp [C05_retry_reaches_healthy c robin hm]
+  have h1' : (mustSucceedAfter c (serve c robin).2.length && (serve c robin).1 != .success) = false := by
+    cases hm : mustSucceedAfter c (serve c robin).2.length with
+    | false => rfl
+    | true => simp [C05_retry_answered_when_backend_returns c robin hm]
   have h2 := C05_retry_body_complete_partial c robin h
   have h3 : (neverAvailable c && ((serve c robin).1 != .badGateway || !(serve c robin).2.isEmpty)) = false := by
     cases hn : neverAvailable c with
     | false => rfl
     | true => simp [C05_gives_up_502 c robin hn hI]
-  simp [h1, h2, h3]
+  simp [h1, h1', h2, h3]
 
 /-! Non-vacuity of the retry hypotheses: three backends, the first two failing (one of them only
 after reading the body), max_fails 2, round robin — the request is answered by backend 2 after
 two failed attempts, every reading attempt seeing the whole body. (test) -/
 def retryExample : Cfg :=
-  { kind := .roundRobin, hash := 0, rands := (fun _ => []), tryDuration := 100, interval := 1, failTimeout := 1000, maxFails := 2, maxConns := 0, hosts := [⟨false, 0, [.fail false]⟩, ⟨false, 0, [.fail true]⟩, ⟨false, 0, [.ok]⟩], hasBody := true }
+  { kind := .roundRobin, hash := 0, rands := (fun _ => []), tryDuration := 100, interval := 1, failTimeout := 1000, maxFails := 2, maxConns := 0, hosts := [⟨false, 0, [.fail false], 0⟩, ⟨false, 0, [.fail true], 0⟩, ⟨false, 0, [.ok], 0⟩], hasBody := true, events := [] }
 
 example : mustSucceed retryExample = true := by decide
 example : serve retryExample 2 =
     (.success, [⟨0, .unread⟩, ⟨1, .full⟩, ⟨2, .full⟩]) := by decide
-example : neverAvailable { retryExample with hosts := [⟨true, 0, []⟩, ⟨false, 3, []⟩], maxConns := 3 } = true := by decide
+example : neverAvailable { retryExample with hosts := [⟨true, 0, [], 0⟩, ⟨false, 3, [], 0⟩, ⟨false, 0, [], 2⟩], maxConns := 3 } = true := by decide
+
+/-! Backends out of rotation when the request arrives, coming back while it is served: two
+backends, policy first; backend 1 (healthy) has a failure on record (max_fails 1) when the request
+arrives, so backend 0 is the only one selectable; it reads the body and fails; while that attempt
+runs backend 1's failure expires (event of attempt 0).  The body was buffered although only one
+backend was selectable on arrival (the pool has two), and backend 1 answers with the whole body.
+The same with backend 1 at its connection cap, and with the only selectable backend retried itself
+(max_fails 2) while the other one stays away. (test) -/
+def recoveryExample : Cfg :=
+  { kind := .first, hash := 0, rands := (fun _ => []), tryDuration := 2000, interval := 50, failTimeout := 10000, maxFails := 1, maxConns := 1, hosts := [⟨false, 0, [.fail true], 0⟩, ⟨false, 0, [.ok], 1⟩], hasBody := true, events := [⟨0, 1, ⟨false, 0, 0⟩⟩] }
+
+example : (poolAt recoveryExample St.init).map Host.avail = [true, false] := by decide
+example : serve recoveryExample 0 = (.success, [⟨0, .full⟩, ⟨1, .full⟩]) := by decide
+example : serve { recoveryExample with hosts := [⟨false, 0, [.fail true], 0⟩, ⟨false, 1, [.ok], 0⟩] } 0 =
+    (.success, [⟨0, .full⟩, ⟨1, .full⟩]) := by decide
+example : serve { recoveryExample with maxFails := 2, hosts := [⟨false, 0, [.fail true, .ok], 0⟩, ⟨true, 0, [.ok], 0⟩], events := [] } 0 =
+    (.success, [⟨0, .full⟩, ⟨0, .full⟩]) := by decide
+/-- ... and of `C05_retry_answered_when_backend_returns`: after the two attempts of the run backend 1 is healthy;
+on arrival (no attempt made) nobody that always answers is in rotation -/
+example : mustSucceedAfter recoveryExample (serve recoveryExample 0).2.length = true := by decide
+example : mustSucceedAfter recoveryExample 0 = false := by decide
+/-- the backend does not come back: the run ends with 502 after the one attempt, nobody healthy is left -/
+example : serve { recoveryExample with events := [] } 0 = (.badGateway, [⟨0, .full⟩]) ∧
+    mustSucceedAfter { recoveryExample with events := [] } 1 = false := by decide
+/-- the hypotheses of `C05_retry_body_complete_partial` and `C05_retry_model_verdict_ok_partial` hold for it -/
+example : recoveryExample.hosts.length > 1 ∨ recoveryExample.tryDuration = 0 := by decide
+/-- a healthy backend next to backends that are out on arrival and change state: `mustSucceed` -/
+example : mustSucceed { recoveryExample with maxFails := 2, hosts := [⟨false, 0, [.fail true], 1⟩, ⟨true, 0, [.fail false], 0⟩, ⟨false, 0, [.ok], 1⟩], events := [⟨0, 1, ⟨false, 0, 0⟩⟩, ⟨1, 0, ⟨true, 0, 0⟩⟩] } = true := by decide
 
 end Casket.Props.C05
